@@ -191,6 +191,12 @@ class CoreEnforcer:
 
         self.model.clear_policy()
 
+        if self.auto_build_role_links:
+            for rm in self.rm_map.values():
+                rm.clear()
+            for crm in self.cond_rm_map.values():
+                crm.clear()
+
     def init_rm_map(self):
         if "g" in self.model.keys():
             for ptype in self.model["g"]:
